@@ -45,7 +45,7 @@ ASSUMPTIONS = ['bit flips inside complete JSON files are not injected (nothing i
                'link functions are importable module-level functions', 'sampling, not proof']
 PROBES = ['restart_with_groups', 'restart_with_links', 'restart_with_joins', 'restart_by_reference', 'restart_relative_paths',
           'double_round_trip', 'second_generation_restart', 'fault_torn_write', 'fault_enospc', 'fault_open', 'fault_close',
-          'fault_truncated_read', 'fault_missing_read', 'fault_empty_read', 'save_failed_loudly', 'metadata_unserialisable_filtered',
+          'fault_truncated_read', 'fault_missing_read', 'fault_empty_read', 'save_failed_loudly', 'metadata_unserialisable_filtered', 'saved_without_restart', 'values_rewritten_in_place',
           'datetime_component', 'categorical_component', 'multi_key_join', 'session_saved_in_another_directory', 'categorical_jitter', 'two_input_link_with_own_input', 'coordinates_set_later', 'coordinates_set_on_file_dataset', 'function_with_borrowed_name']
 
 LEAFKINDS = ['ineq', 'range', 'mrange', 'roi', 'roix', 'mask', 'slice', 'elem', 'catroi', 'cat', 'cat2d', 'catmr', 'flood', 'roi3d',
@@ -53,7 +53,7 @@ LEAFKINDS = ['ineq', 'range', 'mrange', 'roi', 'roix', 'mask', 'slice', 'elem', 
 LINKKINDS = [('oneway', 2), ('oneway_inv', 2), ('identity', 1), ('same', 2), ('twoway', 2), ('multi', 1), ('aligned', 1), ('join', 2)]
 WEIGHTS = {'new': 3, 'new_file': 2.5, 'append': 3, 'remove': 0.7, 'add_derived': 1.5, 'add_link': 4, 'join': 1.5, 'new_group': 6,
            'set_state': 2, 'set_label': 1, 'set_style': 1, 'set_dstyle': 1, 'set_meta': 1.5, 'remove_group': 0.5, 'restart': 4,
-           'remove_link': 0.5, 'reorder': 0.7, 'jitter': 0.7, 'set_coords': 0.8}
+           'remove_link': 0.5, 'reorder': 0.7, 'jitter': 0.7, 'set_coords': 0.8, 'checkpoint': 1.2, 'upd_inplace': 1.2}
 FAULTS = [None, None, None, None, 'torn', 'enospc', 'open_enoent', 'open_enospc', 'closefail', 'read_truncated', 'read_missing',
           'read_empty', 'read_dir']
 
@@ -112,7 +112,13 @@ def generate(rng, cfg, guards):
             a = rng.pick(sorted(W.STYLE_VALUES))
             ops.append([k, r8(), a, r8()])
         elif k == 'set_meta':
-            ops.append([k, r8(), rng.randrange(6), rng.randrange(6)])
+            ops.append([k, r8(), rng.randrange(6), rng.randrange(8)])
+        elif k == 'checkpoint':
+            # the session is saved (an autosave) and work goes on in the same process
+            ops.append([k, rng.chance(0.7)])
+        elif k == 'upd_inplace':
+            # values changed by writing into the array the dataset already holds, then announced through update_components
+            ops.append([k, r8(), r8(), rng.randrange(10000)])
         elif k == 'reorder':
             ops.append([k, r8(), rng.randrange(1000)])
         elif k == 'jitter':
@@ -122,6 +128,12 @@ def generate(rng, cfg, guards):
         else:
             fault = rng.pick(FAULTS) if with_faults else None
             ops.append(['restart', rng.chance(0.7), rng.chance(0.6), fault, rng.randrange(1, 4000), rng.chance(0.3), rng.pick([0, 0, 0, 1, 2, 3])])
+    if rng.chance(0.12):
+        # autosave, then values rewritten inside the arrays the session already holds, then the crash: the second file must hold the new values
+        h = r8()
+        nj = rng.randrange(1, 4)
+        ops += [['upd_inplace', h, j, rng.randrange(10000)] for j in range(nj)] + [['checkpoint', True]] + \
+            [['upd_inplace', h, j, rng.randrange(10000)] for j in range(nj)] + [['restart', True, True, None, 0, False, 0]]
     ops.append(['restart', rng.chance(0.7), rng.chance(0.6), None, 0, rng.chance(0.5), rng.pick([0, 0, 1, 2, 3])])
     return {'knobs': {'guards': list(guards), 'prop': PROP}, 'ops': ops}
 
@@ -148,7 +160,7 @@ def simplify(case):
             yield dict(case, ops=new)
 
 
-META_VALUES = ['text', 3, 2.5, [1, 2, 3], {'nested': {'a': 1, 'b': [1.5, 'x']}}, None]
+META_VALUES = ['text', 3, 2.5, [1, 2, 3], {'nested': {'a': 1, 'b': [1.5, 'x']}}, None, ('g', 'r', 'i')]
 
 
 def class_tree(st):
@@ -221,7 +233,7 @@ def snapshot(w, relax_links=False):
         for k, v in d.meta.items():
             if isinstance(k, str) and json_able(v):
                 meta[k] = v
-        rec['meta'] = sorted((k, repr(v)) for k, v in meta.items())
+        rec['meta'] = sorted((k, repr(listify(v))) for k, v in meta.items())
         # key joins as defined: partner, key attributes on this side, key attributes on the other side (in order: first with first)
         rec['joins'] = sorted([getattr(o, 'label', None), [c.label for c in c1], [c.label for c in c2]]
                               for o, (c1, c2) in getattr(d, '_key_joins', {}).items())
@@ -242,6 +254,15 @@ def first_substituted(a, b):
         if x != y:
             return first_substituted(x, y) if isinstance(x, list) else str(x)
     return 'structure'
+
+
+def listify(v):
+    # a tuple comes back as a list (JSON has no tuples): compared by content
+    if isinstance(v, (list, tuple)):
+        return [listify(x) for x in v]
+    if isinstance(v, dict):
+        return dict((k, listify(x)) for k, x in v.items())
+    return v
 
 
 def json_able(v):
@@ -487,8 +508,33 @@ def _execute(case, res, tmp, fs):
                     if op[3] == 5:
                         d.meta['handle%d' % op[2]] = object()      # cannot be serialised: documented to be filtered out
                         res.probe('metadata_unserialisable_filtered')
+                    elif op[3] == 7:
+                        # a tuple with an item that cannot be serialised (filtered out) - other tuples can be
+                        d.meta['origin%d' % op[2]] = ('reader', object())
+                        res.probe('metadata_unserialisable_filtered')
                     else:
                         d.meta['key%d' % op[2]] = META_VALUES[op[3] % len(META_VALUES)]
+            elif k == 'checkpoint':
+                try:
+                    w.save(include_data=op[1])
+                    res.probe('saved_without_restart')
+                except Exception:
+                    pass        # a save that fails loudly is accepted (restart judges it)
+            elif k == 'upd_inplace':
+                d = w.pick_data(op[1])
+                if d is not None:
+                    mains = [c for c in d.main_components if d.get_kind(c) == 'numerical' and d[c].dtype.kind == 'f'
+                             and not hasattr(d.get_component(c), '_load_log')]
+                    if mains:
+                        c = mains[op[2] % len(mains)]
+                        arr = d.get_component(c).data
+                        if isinstance(arr, np.ndarray) and arr.flags.writeable:
+                            arr[...] = W.values(op[3], d.shape)
+                            d.update_components({c: arr})
+                            res.probe('values_rewritten_in_place')
+                        elif isinstance(arr, np.ndarray):
+                            # the dataset holds a read-only array: it gets one of its own first (later calls write into that one)
+                            d.update_components({c: np.array(W.values(op[3], d.shape))})
             elif k == 'upd':
                 d = w.pick_data(op[1])
                 if d is not None:
